@@ -5,7 +5,7 @@ from tools import dfir, vlib
 class C25(dfir.DfirSpec):
     tag = "C25"
     props_vo = "theories/Props/C25.vo"
-    theorems = ["C25_frame", "C25_settled_reads", "C25_slot_semantics", "C25_real_schedule", "C25_loop_schedule"]
+    theorems = ["C25_frame", "C25_settled_reads", "C25_slot_semantics", "C25_real_schedule", "C25_loop_schedule", "C25_settled_loop_schedule"]
     modes = ("ticks", "avail")
     level = "other"
     explanation = "Not category proof: that the partitioner ALWAYS produces a schedule with the producer before every referrer, access groups in order, referrers before the pipe consumer (clause 6 of engine E6's WellFormed) is E6's open item (C18 is translation validation); here the clause is an executable check (ModelRefs.chain_ok, frame part proved sound) evaluated on the real schedule of every loop-free C25 program on every run, and C25_real_schedule states settled reads on any schedule that passes it. For programs with loop blocks (references crossing a loop boundary) the same check runs on the blocks in program order descending into the loop gates (refs_ordered_l, C25_loop_schedule: blocks that do not use the slot leave it alone); the settled-reads equation itself is proved for loop-free schedules only. Closures with more than one reference and hydro_lang::handoff_ref are not modelled."
@@ -51,8 +51,9 @@ class C25(dfir.DfirSpec):
         p = dfir.catalogue()[case["prog"]]
         d = p.c25
         groups = "[" + "; ".join("(%d%%nat, %d%%nat, %s)" % (sink, src, dfir.coqfn(fn)) for sink, src, fn in d["groups"]) + "]"
-        desc = "{| c_prod := %s; c_groups := %s; c_consumer := %s |}" % (
-            d["prod"], groups, "None" if d["consumer"] is None else "(Some %d%%nat)" % d["consumer"])
+        desc = "{| c_prod := %s; c_groups := %s; c_consumer := %s; c_vec := %s |}" % (
+            d["prod"], groups, "None" if d["consumer"] is None else "(Some %d%%nat)" % d["consumer"],
+            "true" if d.get("vec") else "false")
         panic = "panic" in res
         outs = [] if panic else res["outs"]
         obs = [] if panic else res["obs"]
